@@ -379,6 +379,16 @@ def run(tier, seed):
     vlib.binding_selftest(o, FAMILY, "AdmissionTrace", "AdmissionTrace.cfg", tr, mutators())
     if len(o.selftests) - n0 < 11 and not o.violations:
         raise vlib.Infra("binding self-test: some negative control found no applicable trace")
+    # the same rule on REAL, fully wired nodes: clusters of real app.Run nodes (specs/Workflow, harness/workflow) with a
+    # Byzantine member whose validator client signs with a foreign key / other data and who puts crafted partial signatures
+    # on the wire as raw libp2p messages (real parsigex.handle) and through the in-memory exchange; only the two guards
+    # that ARE this property (what the validator API stores internally verifies under the node's own share; what the
+    # exchange hands to the store verifies under the claimed share) may raise an alarm here
+    if not o.violations:
+        import grow_workflow
+        grow_workflow.light_stage(o, seed, only=grow_workflow.C10_GUARDS,
+                                  pick=lambda p: p.get("byz") is not None and (p.get("mode") == "p2p" or p.get("exverify", True)),
+                                  controls=("unverified partial stored internally", "unverifiable partial accepted from a peer"))
     return vlib.finish(o, "exploration", RULE, ASSUMPTIONS,
                        extra_cov={"cases_enumerated_by_tlc": len(cases), "single_element_cases": nfam[0], "batches": nfam[1],
                                   "sequences": nfam[2], "fork_sequences": nfam[3], "case_classes": nclasses,
